@@ -5,7 +5,8 @@
    the end of each group. *)
 From Lal Require Import Common.LBytes Common.Res Net.NetChk Net.NetChkProofs
   Net.NetRtpHeader Net.NetRtpHeaderProofs Net.NetRtcp Net.NetInterleaved Net.NetWsRead Net.NetFramingProofs
-  Net.NetAuHeader Net.NetAuHeaderProofs Net.NetUnpack Net.NetUnpackProofs Net.NetInSess Net.NetInSessProofs Net.NetPs Net.NetPsProofs
+  Net.NetAuHeader Net.NetAuHeaderProofs Net.NetUnpack Net.NetUnpackProofs Net.NetInSess Net.NetInSessProofs
+  Net.NetInSessSetup Net.NetInSessSetupProofs Net.NetPs Net.NetPsProofs
   Net.NetStr Net.NetSdpRaw Net.NetUrlPath Net.NetRtmpClient Net.NetTextProofs.
 Open Scope N_scope.
 
@@ -109,6 +110,32 @@ Theorem c13_insess_refuted :
 Proof. exact run_insess_pinned_refuted. Qed.
 Print Assumptions c13_insess_refuted.
 
+(* BaseInSession with the transport state of its tracks.  Each track is not set up, set up over
+   UDP (SetupWithConn: the track's UdpConnection pointers are non-nil) or set up interleaved
+   (SetupWithChannel).  From EVERY transport state [tp] (connections present or nil, any channel
+   numbers), for every SDP-derived configuration and every sequence of SETUPs (either kind, either
+   track, at any point, repeated), interleaved packets on any channel and datagrams on the RTP /
+   RTCP sockets that exist: each step returns *)
+Theorem c13_no_panic_insess_transport : forall ac aclock apt vc vclock vpt tp evs,
+  exists out, run_udpsess_from true ac aclock apt vc vclock vpt tp evs = Ok out.
+Proof. exact run_udpsess_from_total. Qed.
+Print Assumptions c13_no_panic_insess_transport.
+
+(* before the repair: an SR that arrives over UDP with the SSRC of a track without RTCP socket
+   (video only set up; audio only set up; audio interleaved + video UDP; audio-only SDP and the
+   zero-value video payload type 0) writes the receiver report to a nil UdpConnection *)
+Theorem c13_insess_transport_refuted :
+  run_udpsess false c_pcma 8000 8 c_h264 90000 96
+    [SvSetupConn TV; SvUdpRtp TV (w_rtp 8 17 [213; 213]); SvUdpRtcp TV (w_sr 17)] = Panic s_rtcpconn_nil /\
+  run_udpsess false c_pcma 8000 8 c_h264 90000 96
+    [SvSetupConn TA; SvUdpRtp TA (w_rtp 96 34 [101; 1]); SvUdpRtcp TA (w_sr 34)] = Panic s_rtcpconn_nil /\
+  run_udpsess false c_pcma 8000 8 c_h264 90000 96
+    [SvSetupChan TA 0 1; SvSetupConn TV; SvIlv 0 (w_rtp 8 17 [213; 213]); SvUdpRtcp TV (w_sr 17)] = Panic s_rtcpconn_nil /\
+  run_udpsess false c_pcma 8000 8 c_none 0 0
+    [SvSetupConn TA; SvUdpRtp TA (w_rtp 0 34 [255]); SvUdpRtcp TA (w_sr 34)] = Panic s_rtcpconn_nil.
+Proof. exact run_udpsess_pinned_refuted. Qed.
+Print Assumptions c13_insess_transport_refuted.
+
 (* ---- 5. GB28181 program stream unpacker -------------------------------- *)
 (* PsUnpacker.FeedRtpPacket on any sequence of datagrams, for any positive
    reorder-queue size: every call returns (no panic, no loop out of fuel) *)
@@ -183,4 +210,13 @@ Example c13_insess_nonvacuous :
   run_insess true c_none 0 0 c_h264 90000 96
     [(2, w_hdr ++ [124; 133; 1]); (2, [128; 96; 0; 2; 0; 0; 0; 2; 0; 0; 0; 3; 124; 69; 2])]
   = Ok [EvRtp 1; EvSep; EvRtp 2; EvAv (mk_av 96 0 [0; 0; 0; 3; 101; 1; 2]); EvSep].
+Proof. vm_compute. reflexivity. Qed.
+
+(* non-vacuity: both tracks over UDP, an SR for each SSRC arriving on the other track's RTCP
+   socket is answered from the socket of the SSRC's track *)
+Example c13_insess_transport_nonvacuous :
+  run_udpsess true c_pcma 8000 8 c_h264 90000 96
+    [SvSetupConn TA; SvSetupConn TV; SvUdpRtp TV (w_rtp 8 17 [213; 213]); SvUdpRtcp TV (w_sr 17); SvUdpRtcp TA (w_sr 99)]
+  = Ok [USep; USep; UEv (EvRtp 1); UEv (EvAv (mk_av 8 0 [213; 213])); USep;
+        URrUdp TA (rr_pack 0 0 0 1 0 65536); USep; USep].
 Proof. vm_compute. reflexivity. Qed.
